@@ -18,9 +18,12 @@
 
    Histories are lists NEWEST FIRST; a RecordTensor of size n initialised with the fill value 0 is "the n newest
    entries of the history, padded with the fill value" (that is C01's theorem, not re-proved here); an index is
-   reduced modulo the record size exactly like _unwind_ptr does.  Delays are on the step grid (k steps). *)
+   reduced modulo the record size exactly like _unwind_ptr does.  A delay is given as the index k of the (older)
+   observation RecordTensor.select reads (delay/dt when on the step grid, its ceiling otherwise) plus, off the grid, the
+   interpolation time (c_off); the spike records interpolate with interp_previous (= the observation k steps back), the
+   trace reducers with interp_expdecay.  All theorems are for delays on the grid. *)
 From Coq Require Import List ZArith Bool.
-From Inferno Require Import Base.Num Gen.Trace Gen.Infra.
+From Inferno Require Import Base.Num Gen.Trace Gen.Infra Gen.Interpolation.
 Import ListNotations.
 
 Inductive tmode := Cumulative | Nearest.
@@ -42,7 +45,10 @@ Record config := mkConfig {
   c_tc_elig : R;
   c_delayed : bool;                    (* hyperparameter `delayed` *)
   c_delayedby : option R;              (* cell.connection.delayedby (None: connection without delays) *)
-  c_red : reduction                    (* batch_reduction *)
+  c_red : reduction;                   (* batch_reduction *)
+  c_off : option R                     (* None: this synapse's delay is on the step grid (k steps).  Some sample_at: the
+                                          delay lies strictly between k-1 and k steps and RecordTensor.select interpolates
+                                          with sample_at = dt - dt * ((delay/dt) mod 1) from the observation k steps back *)
 }.
 
 Inductive signal := SigNone | SigScalar (s : R) (scale : R) | SigTensor (s : list R) (scale : R).
@@ -70,6 +76,15 @@ Definition recsz (duration dt : R) : Z := recordsz_expr N duration dt true.
 (* value `idx` steps before the newest one in a record of size n (index reduced modulo n like _unwind_ptr) *)
 Definition rd {A} (fill : A) (n : Z) (hist : list A) (idx : nat) : A :=
   nth (Z.to_nat (Z.modulo (Z.of_nat idx) n)) hist fill.
+
+(* FoldReducer.view at the selector: the recorded state k steps back when the delay is on the grid, otherwise the
+   reducer's `interpolate` (GENERATED interp_expdecay with the reducer's time constant) between the observations
+   idx and idx-1 steps back *)
+Definition view (off : option R) (dt tc : R) (n : Z) (hist : list R) (idx : nat) : R :=
+  match off with
+  | None => rd (zero N) n hist idx
+  | Some sample_at => interp_expdecay N (rd (zero N) n hist idx) (rd (zero N) n hist (idx - 1)) sample_at dt tc
+  end.
 
 (* ------------------------------------------------------------------ wiring *)
 Definition has_delay (c : config) : bool := match c_delayedby c with Some _ => true | None => false end.
@@ -157,7 +172,7 @@ Definition observe (c : config) (k : nat) (s : sstate) (p q : bool) : sstate :=
 Definition partials (c : config) (k : nat) (s : sstate) : R * R :=
   let dv := del_fwd c in
   (* x_pre: view(selector) when delayed else peek *)
-  let x_pre := if dv then rd (zero N) (sz_tr_pre c) (s_tr_pre s) k else hd (zero N) (s_tr_pre s) in
+  let x_pre := if dv then view (c_off c) (c_dt c) (c_tc_pre c) (sz_tr_pre c) (s_tr_pre s) k else hd (zero N) (s_tr_pre s) in
   let x_post := hd (zero N) (s_tr_post s) in
   let i_pre := if dv then rd false (sz_spike_pre c) (s_spike_pre s) k else hd false (s_spike_pre s) in
   let i_post := hd false (s_spike_post s) in
@@ -170,13 +185,13 @@ Definition partials (c : config) (k : nat) (s : sstate) : R * R :=
   | TripletSTDP =>
       (* y_b = trace_post_slow.data_.read(2); x_b = select(selector, offset=2) when delayed else read(2) *)
       let y_b := rd (zero N) (sz_tr_post_slow c) (s_tr_post_slow s) 1 in
-      let x_b := if dv then rd (zero N) (sz_tr_pre_slow c) (s_tr_pre_slow s) (k + 1)
+      let x_b := if dv then view (c_off c) (c_dt c) (c_tc_pre_slow c) (sz_tr_pre_slow c) (s_tr_pre_slow s) (k + 1)
                  else rd (zero N) (sz_tr_pre_slow c) (s_tr_pre_slow s) 1 in
       (mul N (mul N (add N (one N) y_b) (b2t N i_post)) x_pre,
        mul N (mul N (add N (one N) x_b) (b2t N i_pre)) x_post)
   | StableTripletSTDP =>
       let y_b := rd (zero N) (sz_tr_post_slow c) (s_tr_post_slow s) 1 in
-      let x_b := if dv then rd (zero N) (sz_tr_pre_slow c) (s_tr_pre_slow s) (k + 1)
+      let x_b := if dv then view (c_off c) (c_dt c) (c_tc_pre_slow c) (sz_tr_pre_slow c) (s_tr_pre_slow s) (k + 1)
                  else rd (zero N) (sz_tr_pre_slow c) (s_tr_pre_slow s) 1 in
       (mul N (mul N (add N (abs N (c_lr_post c)) (mul N (lr_post3_abs c) y_b)) (b2t N i_post)) x_pre,
        mul N (mul N (add N (abs N (c_lr_pre c)) (mul N (lr_pre3_abs c) x_b)) (b2t N i_pre)) x_post)
